@@ -1079,6 +1079,9 @@ impl MultipartUpload for SimUpload {
         let res = {
             let mut g = store.w.lock();
             match g.uploads.remove(&self.id) {
+                // like object_store's `Parts::finish`: every part number handed out by put_part
+                // must have completed, otherwise the upload cannot be completed
+                Some(u) if u.parts.len() != u.next_part => Err(generic_err("Missing part")),
                 Some(u) => {
                     let mut out = Vec::new();
                     for (_, b) in u.parts.iter() {
